@@ -192,6 +192,20 @@ let enc line =
        | Some (ret, out) -> Printf.sprintf "%s %s" (string_of_n ret) (image out size))
   | _ -> "BADCASE"
 
+let encdec line =
+  match split_ws line with
+  | [e; v] ->
+      (match encode (encid_of e) (n_of_string v) (n_of_int 12) with
+       | None -> "UB"
+       | Some (ret, out) ->
+           let buf = out @ [n_of_int 0xFF] in
+           Printf.sprintf "%s %s -> %s" (string_of_n ret) (hex_of_bytes out)
+             (match stream_decode buf with
+              | SFault -> "FAULT"
+              | SRes (r, e) -> Printf.sprintf "%s %s %s %s" (status_s r.st) (string_of_n r.rd) (string_of_n r.req)
+                                 (match e with Some t -> string_of_tok t | None -> "-")))
+  | _ -> "BADCASE"
+
 let load_ l cap line =
   let buf = bytes_of_hex line in
   match load l cap buf with
@@ -424,7 +438,7 @@ let () =
   let stream = Sys.argv.(1) in
   let arg i = n_of_string Sys.argv.(i) in
   let f = match stream with
-    | "dec1" -> dec1 | "enc" -> enc
+    | "dec1" -> dec1 | "enc" -> enc | "encdec" -> encdec
     | "load" -> load_ (arg 2) (arg 3)
     | "load_spec" -> load_spec_ (arg 2) (arg 3)
     | "rdonly" -> rdonly | "dec1_spec" -> dec1_spec | "ser_spec" -> ser_spec
